@@ -196,7 +196,8 @@ def join_toks(rng, toks):
         if out and (rng.random() < 0.6 or _re.match(r"[\w.'\"]", t[0]) and _re.match(r"[\w.]", out[-1])
                     or (out[-1] in "+-<>=&|!*/%:.~?" and t[0] in "+-<>=&|*/%:.>~?!")
                     or (out[-1] in "LuU8" and t[0] in "'\"")
-                    or (len(t) > 2 and t[0] in "LuU" and ("'" in t[:3] or '"' in t[:3]))):
+                    or (len(t) > 2 and t[0] in "LuU" and ("'" in t[:3] or '"' in t[:3]))
+                    or (out[-1] in ")\"'" and _re.match(r"[\w.'\"]", t[0]))):   # gcc -P glues such neighbours from different contexts
             out += " "
         out += t
     return out
